@@ -23,17 +23,23 @@ ASSUMPTIONS = ["Python's max() scans left to right replacing the maximum when `i
                "vocabulary identity is modelled by a number per Vocabulary object"]
 
 
+def fresh(d):
+    """an int object of its own (CPython shares the objects of small ints only): equal dimensionalities must be
+    recognised by value, not by object identity"""
+    return int(str(d))
+
+
 def universe(tier):
-    dims = [16, 32] if tier == "quick" else [16, 32, 7]
-    vocs = [spa.Vocabulary(16), spa.Vocabulary(16), spa.Vocabulary(32)]
+    dims = [16, 512] if tier == "quick" else [16, 512, 7]
+    vocs = [spa.Vocabulary(16), spa.Vocabulary(16), spa.Vocabulary(fresh(512))]
     if tier != "quick":
-        vocs += [spa.Vocabulary(7), spa.Vocabulary(32)]
+        vocs += [spa.Vocabulary(7), spa.Vocabulary(fresh(512))]
     objs = [(T.TScalar, "S"), (T.TAnyVocab, "A")]
-    objs += [(T.TAnyVocabOfDim(d), f"D:{d}") for d in dims]
+    objs += [(T.TAnyVocabOfDim(fresh(d)), f"D:{d}") for d in dims]
     objs += [(T.TVocabulary(v), f"V:{i}") for i, v in enumerate(vocs)]
     objs.append((T.Type("Custom"), "B:Custom"))
     # second, equal-but-not-identical instances (equality/hash clauses)
-    twins = [(T.TAnyVocabOfDim(16), "D:16"), (T.TVocabulary(vocs[0]), "V:0"), (T.Type("TScalar"), "S"),
+    twins = [(T.TAnyVocabOfDim(16), "D:16"), (T.TAnyVocabOfDim(fresh(512)), "D:512"), (T.TVocabulary(vocs[0]), "V:0"), (T.Type("TScalar"), "S"),
              (T.Type("Custom"), "B:Custom")]
     return objs, twins, [v.dimensions for v in vocs]
 
